@@ -86,7 +86,7 @@ func (rn *runner) checkIntent(p *Prog, impl string) *vl.OracleFail {
 		return &vl.OracleFail{Key: "intent:" + progKey(m), What: "a reference is not bound to the definition the IDL names (resolved AST differs from the generator's intent)",
 			Input: map[string]interface{}{"program": progJSON(m), "idl": m.Render(), "kind": "intent"}, Expected: e1, Observed: o1}
 	}
-	// erroneous program: must not be accepted; a fatal crash is only tolerated on the one known shape
+	// erroneous program: must not be accepted, and must be answered (no fatal crash, no hang)
 	if strings.HasPrefix(impl, "ok ") {
 		// keep programs the oracle itself still judges erroneous (dangling intent, duplicate name,
 		// identifier with no or several readings) and that are still accepted
@@ -103,7 +103,7 @@ func (rn *runner) checkIntent(p *Prog, impl string) *vl.OracleFail {
 		return &vl.OracleFail{Key: "accepted:" + progKey(m), What: "a program with an unresolvable reference (" + p.Shape + ") is accepted",
 			Input: map[string]interface{}{"program": progJSON(m), "idl": m.Render(), "kind": "accepted"}, Expected: "err:" + p.Expect, Observed: "ok"}
 	}
-	if (impl == "err:crash" || impl == "err:timeout" || impl == "err:died") && p.Expect != "crash" {
+	if impl == "err:crash" || impl == "err:timeout" || impl == "err:died" {
 		fails := func(q *Prog) bool { o := rn.impl(q); return o == impl }
 		m := shrink(p, fails)
 		return &vl.OracleFail{Key: "fatal:" + progKey(m), What: "resolution does not return (" + impl + ") on " + p.Shape,
@@ -121,7 +121,7 @@ func (rn *runner) cheapIntent(p *Prog, impl string) *vl.OracleFail {
 		exp, valid := expectedDump(p)
 		bad = valid && impl != exp
 	} else {
-		bad = strings.HasPrefix(impl, "ok ") || ((impl == "err:crash" || impl == "err:timeout" || impl == "err:died") && p.Expect != "crash")
+		bad = strings.HasPrefix(impl, "ok ") || impl == "err:crash" || impl == "err:timeout" || impl == "err:died"
 	}
 	if bad {
 		rn.out.Count("oracle-failures-not-minimised")
@@ -135,12 +135,8 @@ func (rn *runner) checkOrder(p *Prog, impl string, q *Prog, implQ string) *vl.Or
 	if same {
 		return nil
 	}
-	if rn.saturated() && p.Expect != "crash" {
+	if rn.saturated() {
 		rn.out.Count("oracle-failures-not-minimised")
-		return nil
-	}
-	if p.Expect == "crash" {
-		// known: on this shape fatal-vs-error is all there is to see, both are "rejected"
 		return nil
 	}
 	// try to shrink with the reversal as the second order
@@ -261,7 +257,11 @@ func (rn *runner) one(p *Prog, r *vl.Rng, nvar int) {
 		rn.out.Sample(map[string]interface{}{"shape": p.Shape, "idl": p.Render(), "impl": impl})
 	}
 	if f := rn.checkIntent(p, impl); f != nil {
-		rn.out.Fail(*f)
+		if p.Observe {
+			rn.out.Count("observed:" + p.Shape + ":" + fmt.Sprint(f.Observed))
+		} else {
+			rn.out.Fail(*f)
+		}
 	}
 	for v := 0; v < nvar; v++ {
 		var q *Prog
@@ -329,10 +329,10 @@ func run(repo, dir string, seed uint64, tier string) error {
 	if tier == "thorough" {
 		nprog, nvar, maxFiles, maxChain = 10000, 2, 8, 12
 	}
-	rn.splitOps(r, 300)
-	for _, p := range fixedCases() {
+	for _, p := range fixedCases() { // regression items first
 		rn.one(p, r, 1)
 	}
+	rn.splitOps(r, 300)
 	g := &gen{r: r, maxFiles: maxFiles, maxChain: maxChain}
 	for i := 0; i < nprog; i++ {
 		p := g.genProgram()
